@@ -5,8 +5,10 @@ import (
 	"fmt"
 	"io"
 	"os"
+	"os/exec"
 	"regexp"
 	"sort"
+	"strconv"
 	"strings"
 	"time"
 
@@ -59,7 +61,18 @@ type coreScript struct {
 	CallArgs   [][][]int     `json:"call_args"` // call-site attribute lists: [key, value]
 	FlagSets   [][]string    `json:"flag_sets"` // flag sets (names) used by the flag calls
 	TsLayouts  []string      `json:"ts_layouts"` // candidate layouts for the timestamp observation
+	RegCalls   []coreRegCall `json:"reg_calls"`  // RegisterLevel calls of the Register action
+	ProcPer    bool          `json:"proc_per"`   // one fresh process per behaviour (the level registry cannot be reset)
 	Behaviours [][]coreEvent `json:"behaviours"`
+}
+
+// coreRegCall is one RegisterLevel call: value, treated-as level (-1: none), error device,
+// and whether the title is that of a built-in level (the call must then be refused).
+type coreRegCall struct {
+	V     int  `json:"v"`
+	T     int  `json:"t"`
+	E     bool `json:"e"`
+	Clash bool `json:"clash"`
 }
 
 type coreRun struct {
@@ -81,6 +94,46 @@ func coreMain(args []string) int {
 	}
 	var sc coreScript
 	readJSON(args[0], &sc)
+	only := -1
+	for i, a := range args {
+		if a == "--only" && i+1 < len(args) {
+			only, _ = strconv.Atoi(args[i+1])
+		}
+	}
+	if sc.ProcPer && only < 0 {
+		// the level registry is process-wide and cannot be reset: every behaviour gets a process of
+		// its own (same binary, same name - the child is in the same process mode as this one)
+		for i := range sc.Behaviours {
+			cargs := []string{"core", args[0], fmt.Sprintf("%s.%d", args[1], i), "--only", strconv.Itoa(i)}
+			for _, a := range os.Args[1:] {
+				if strings.HasPrefix(a, "-test.") {
+					cargs = append(cargs, a)
+				}
+			}
+			cmd := exec.Command(os.Args[0], cargs...)
+			cmd.Stderr = os.Stderr
+			if err := cmd.Run(); err != nil {
+				fmt.Fprintf(os.Stderr, "core: behaviour %d: child failed: %v\n", i, err)
+				return 2
+			}
+		}
+		out := newTraceOut(args[1])
+		defer out.close()
+		for i := range sc.Behaviours {
+			pth := fmt.Sprintf("%s.%d", args[1], i)
+			b, err := os.ReadFile(pth)
+			if err != nil {
+				fmt.Fprintln(os.Stderr, "core:", err)
+				return 2
+			}
+			out.bw.Write(b)
+			os.Remove(pth)
+		}
+		return 0
+	}
+	if only >= 0 {
+		sc.Behaviours = sc.Behaviours[only : only+1]
+	}
 	out := newTraceOut(args[1])
 	defer out.close()
 	captureStdio()
@@ -120,6 +173,7 @@ func (r *coreRun) reset() {
 	slog.SetLevel(slog.Level(r.sc.InitLevel))
 	is.SetDebugMode(false)
 	is.SetTraceMode(false)
+	is.SetVerboseMode(false)
 	takeAll()
 	d := defaultEntry()
 	r.loggers = []*slog.Entry{nil, d}
@@ -351,6 +405,7 @@ func (r *coreRun) exec(ev coreEvent) (rec map[string]any) {
 		l = r.loggers[ev.L]
 	}
 	ret := 0
+	okReg, isReg := false, false
 	switch ev.Op {
 	case "Set":
 		ret = r.idOf(r.set(l, ev.K, ev.A, ev.B))
@@ -376,6 +431,26 @@ func (r *coreRun) exec(ev coreEvent) (rec map[string]any) {
 		slog.SetDefault(l)
 	case "DbgMode":
 		is.SetDebugMode(ev.A == 1)
+	case "VrbMode":
+		is.SetVerboseMode(ev.A == 1)
+	case "Register":
+		c := r.sc.RegCalls[ev.A-1]
+		title := fmt.Sprintf("CUSTOM%d", c.V)
+		if c.V < 0 {
+			title = fmt.Sprintf("CUSTOMNEG%d", -c.V)
+		}
+		if c.Clash {
+			title = slog.WarnLevel.String()
+		}
+		var opts []slog.RegOpt
+		if c.T >= 0 {
+			opts = append(opts, slog.RegWithTreatedAsLevel(slog.Level(c.T)))
+		}
+		if c.E {
+			opts = append(opts, slog.RegWithPrintToErrorDevice(true))
+		}
+		okReg = slog.RegisterLevel(slog.Level(c.V), title, opts...) == nil
+		isReg = true
 	case "PkgSkip":
 		if ev.K == "SetSkip" {
 			slog.SetSkip(ev.A)
@@ -413,6 +488,9 @@ func (r *coreRun) exec(ev coreEvent) (rec map[string]any) {
 		panic("unknown op " + ev.Op)
 	}
 	rec["ret"] = ret
+	if isReg {
+		rec["ok"] = okReg
+	}
 	rec["dbg"] = is.DebugMode()
 	rec["deflvl"] = int(slog.GetLevel())
 	rec["attrsR"] = slog.IsAnyBitsSet(slog.LattrsR)
@@ -506,8 +584,9 @@ func (r *coreRun) observe(rec map[string]any) {
 			}
 			o["dump"] = depths
 		}
-		if r.obs["shape"] || r.obs["dest"] {
+		if r.obs["shape"] || r.obs["dest"] || r.obs["shapes"] {
 			dests := []map[string]any{}
+			shapes := []string{}
 			for _, sev := range r.sc.ProbeSevs {
 				sink.reset()
 				l.WriteThru(context.Background(), slog.Level(sev), r.ts, 0, "probe", nil)
@@ -516,6 +595,14 @@ func (r *coreRun) observe(rec map[string]any) {
 					for _, e := range evs {
 						if e.K == "w" {
 							o["shape"] = shapeOf(e.payload)
+							break
+						}
+					}
+				}
+				if r.obs["shapes"] {
+					for _, e := range evs {
+						if e.K == "w" {
+							shapes = append(shapes, shapeOf(e.payload))
 							break
 						}
 					}
@@ -536,6 +623,9 @@ func (r *coreRun) observe(rec map[string]any) {
 						dests = append(dests, map[string]any{"r": sev, "evs": evs2})
 					}
 				}
+			}
+			if r.obs["shapes"] {
+				o["shapes"] = shapes
 			}
 			if r.obs["dest"] {
 				o["dest"] = dests
